@@ -72,7 +72,9 @@ package dsl
 //@   requires value != nil && definitionMeta != nil
 //@ func UnmarshalTypeYAML
 //@   entry
+//@   property C10
 //@   requires value != nil
+//@   ensures nil_type_only_for_a_null_node: result1 == nil && value.Tag != "!!null" ==> result0 != nil
 //@ func UnmarshalUnionYAML
 //@   entry
 //@   property C10
@@ -83,7 +85,26 @@ package dsl
 //@   requires value != nil
 //@ func UnmarshalGenericNode
 //@   entry
+//@   property C10
 //@   requires value != nil
+//@   ensures result1 == nil ==> result0 != nil
+// Two spellings of one argument list: `args: X` for any single type X (a name, or an expanded !vector/!map/... node)
+// means `args: [X]`; a sequence lists the arguments one by one.
+//@   property C13
+//@   invariant 1: len(simpleType.TypeArguments) == rangeindex + 1
+//@   iteration 0: k.Value == "args" && v.Kind != yaml.SequenceNode ==> len(simpleType.TypeArguments) == 1
+//@   iteration 0: k.Value == "args" && v.Kind == yaml.SequenceNode ==> len(simpleType.TypeArguments) == len(v.Content)
+// participle never leaves a nil entry in a repeated capture (library fact, trusted)
+//@ elems-nonnil *dsl/parser.Type
+//@ func convertType
+//@   property C10
+//@   requires ast != nil
+//@   invariant 1: t != nil
+//@   ensures result != nil
+//@ func applyTypeTail
+//@   property C10
+//@   requires inner != nil
+//@   ensures result != nil
 //@ func UnmarshalEnumValues
 //@   entry
 //@   property C10
@@ -92,11 +113,73 @@ package dsl
 //@   invariant 1: len(vals) * 2 == i && (forall k in 0..len(vals) :: vals[k] != nil)
 //@ func parseError
 //@   requires node != nil
+// Expression nodes carry the position of their token (1-based, relative to the expression text); ParseExpression
+// then shifts it by the host node's position. A node without a position cannot produce a located diagnostic.
+//@ func nodeMetaFromPosition
+//@   property C10
+//@   ensures expression_nodes_keep_their_token_position: result.Line == pos.Line && result.Column == pos.Column
 //@ func createNodeMeta
 //@   requires yamlNode != nil
 //@ func UnmarshalFieldsOrProtocolStepsYAML
 //@   entry
 //@   requires value != nil && elements != nil
+
+// ---- expressionparser.go: termination and panic-freedom of the recursive-descent parser. Every function consumes
+// tokens or stops; the measure is the number of tokens left (lexRem, see stubs), with a rank that orders the functions
+// which call each other without consuming a token first. A function that succeeds has consumed at least one token
+// and returns a node.
+// lexer.MustSimple numbers its symbols downwards from EOF-1 (library fact, trusted): no symbol is the EOF type (-1).
+//@ axiom TokenTypeOpenParen < -1 && TokenTypeOpenBracket < -1 && TokenTypeCloseParen < -1 && TokenTypeCloseBracket < -1 && TokenTypeComma < -1 && TokenTypeColon < -1
+// The operator table (expressionparser.go, var operatorInfo) has exactly two entries that are not binary operators.
+//@ axiom forall t in -9223372036854775808..9223372036854775808 :: (t in operatorInfo) && !operatorInfo[t].IsBinary ==> t == TokenTypeOpenBracket || t == TokenTypeOpenParen
+//@ func parseExpr
+//@   property C10
+//@   requires lex != nil && lexRem(lex) >= 1
+//@   decreases 4 * lexRem(lex) + 2
+//@   ensures lexRem(lex) <= old(lexRem(lex)) && lexRem(lex) >= 1
+//@   ensures result1 == nil ==> result0 != nil && lexRem(lex) < old(lexRem(lex))
+//@ func parseExprWithPrecedence
+//@   property C10
+//@   requires lex != nil && lexRem(lex) >= 1
+//@   decreases 4 * lexRem(lex) + 1
+//@   variant 0: lexRem(lex)
+//@   invariant 0: lexRem(lex) < old(lexRem(lex)) && lexRem(lex) >= 1 && lhs != nil
+//@   ensures lexRem(lex) <= old(lexRem(lex)) && lexRem(lex) >= 1
+//@   ensures result1 == nil ==> result0 != nil && lexRem(lex) < old(lexRem(lex))
+//@ func parseAtom
+//@   property C10
+//@   requires lex != nil && lexRem(lex) >= 1
+//@   decreases 4 * lexRem(lex)
+//@   ensures lexRem(lex) <= old(lexRem(lex)) && lexRem(lex) >= 1
+//@   ensures result1 == nil ==> result0 != nil && lexRem(lex) < old(lexRem(lex))
+//@ func parseCall
+//@   property C10
+//@   requires lex != nil && lexRem(lex) >= 1 && target != nil
+//@   requires (*lex.Peek()).Type == TokenTypeOpenParen
+//@   decreases 4 * lexRem(lex)
+//@   variant 0: lexRem(lex)
+//@   invariant 0: lexRem(lex) < old(lexRem(lex)) && lexRem(lex) >= 1
+//@   ensures lexRem(lex) <= old(lexRem(lex)) && lexRem(lex) >= 1
+//@   ensures result1 == nil ==> result0 != nil && lexRem(lex) < old(lexRem(lex))
+//@ func parseSubscript
+//@   property C10
+//@   requires lex != nil && lexRem(lex) >= 1 && target != nil
+//@   requires (*lex.Peek()).Type == TokenTypeOpenBracket
+//@   decreases 4 * lexRem(lex)
+//@   variant 0: lexRem(lex)
+//@   invariant 0: lexRem(lex) < old(lexRem(lex)) && lexRem(lex) >= 1
+//@   ensures lexRem(lex) <= old(lexRem(lex)) && lexRem(lex) >= 1
+//@   ensures result1 == nil ==> result0 != nil && lexRem(lex) < old(lexRem(lex))
+//@ func parseSubscriptArg
+//@   property C10
+//@   requires lex != nil && lexRem(lex) >= 1
+//@   decreases 4 * lexRem(lex) + 3
+//@   ensures lexRem(lex) <= old(lexRem(lex)) && lexRem(lex) >= 1
+//@   ensures result1 == nil ==> result0 != nil && lexRem(lex) < old(lexRem(lex))
+//@ func combineOperands
+//@   property C10
+//@   requires lhs != nil && rhs != nil && tok != nil
+//@   ensures result1 == nil ==> result0 != nil
 
 // ---- small pure model queries used by the generators' contracts ------------------------------------------
 //@ func (*Array).IsFixed
@@ -271,6 +354,8 @@ package dsl
 // every element store in swept code; appends of parser-built nodes are address-of-composite literals) -----------
 //@ elems-nonnil *dsl.ProtocolStep *dsl.Field *dsl.TypeCase *dsl.ArrayDimension *dsl.EnumValue *dsl.ComputedField
 //@ elems-nonnil *dsl.Namespace *dsl.ProtocolDefinition *dsl.GenericTypeParameter
+// A nil Type stands for `null` and is legal only as TypeCase.Type; slices of types (generic arguments) never hold it.
+//@ elems-nonnil dsl.Type
 
 // The schema string of a protocol: a function of the protocol, the symbol table and the (unmodified) model.
 //@ func GetProtocolSchemaString
@@ -347,15 +432,22 @@ package dsl
 //@   ensures generic_arguments_are_compared: (len(newType.TypeArguments) > 0 || len(oldType.TypeArguments) > 0) && typeof(result) != *TypeChangeIncompatible ==> called(getBaseDefinition)
 
 // ---- C09: individual rules. "grew" = the pass reported at least one more error. ---------------------------------
-// A map key must be a primitive scalar type (aliases are looked through by GetUnderlyingType).
+// A map key must be a primitive scalar type (aliases are looked through by GetUnderlyingType). Whether a key is
+// primitive can only be read off a resolved type: the rule needs type resolution to have run (a key that failed
+// to resolve has been reported by resolveTypes already).
+//@ pass-order C09 dsl.Validate: dsl.resolveTypes < dsl.validateMaps
 //@ spec func keyUnderlying(m *Map) Type = GetUnderlyingType(m.KeyType)
-//@ spec func keyIsPrimitive(m *Map) bool = typeof(keyUnderlying(m)) == *SimpleType && keyUnderlying(m).(*SimpleType) != nil && (keyUnderlying(m).(*SimpleType).ResolvedDefinition == nil || typeof(keyUnderlying(m).(*SimpleType).ResolvedDefinition) == PrimitiveDefinition)
+//@ spec func keyIsPrimitive(m *Map) bool = typeof(keyUnderlying(m)) == *SimpleType && keyUnderlying(m).(*SimpleType) != nil && typeof(keyUnderlying(m).(*SimpleType).ResolvedDefinition) == PrimitiveDefinition
+// A key that is a type parameter of the enclosing generic definition cannot be judged there: the rule applies to
+// every instantiation instead, which the pass reaches through the resolved definition of a reference with type arguments.
+//@ spec func keyIsTypeParameter(m *Map) bool = typeof(keyUnderlying(m)) == *SimpleType && keyUnderlying(m).(*SimpleType) != nil && typeof(keyUnderlying(m).(*SimpleType).ResolvedDefinition) == *GenericTypeParameter
 //@ func validateMaps$1
 //@   property C09
 //@   requires errorSink != nil
 //@   ensures everything_but_maps_descends: typeof(node) != *Map ==> called("dsl.(Visitor).VisitChildren")
-//@   ensures non_primitive_key_is_an_error: typeof(node) == *Map && node.(*Map) != nil && !keyIsPrimitive(node.(*Map)) ==> len(errorSink.Errors) == old(len(errorSink.Errors)) + 1
-//@   ensures primitive_key_is_accepted: typeof(node) == *Map && node.(*Map) != nil && keyIsPrimitive(node.(*Map)) ==> len(errorSink.Errors) == old(len(errorSink.Errors))
+//@   ensures non_primitive_key_is_an_error: typeof(node) == *Map && node.(*Map) != nil && !keyIsPrimitive(node.(*Map)) && !keyIsTypeParameter(node.(*Map)) ==> len(errorSink.Errors) == old(len(errorSink.Errors)) + 1
+//@   ensures primitive_key_is_accepted: typeof(node) == *Map && node.(*Map) != nil && (keyIsPrimitive(node.(*Map)) || keyIsTypeParameter(node.(*Map))) ==> len(errorSink.Errors) == old(len(errorSink.Errors))
+//@   ensures instantiated_generics_are_checked: typeof(node) == *SimpleType && node.(*SimpleType) != nil && node.(*SimpleType).ResolvedDefinition != nil && len(node.(*SimpleType).ResolvedDefinition.GetDefinitionMeta().TypeArguments) > 0 ==> called("dsl.(Visitor).Visit")
 
 // Array dimension rules are checked on every array, and the pass always descends (arrays nest inside vectors, maps ...).
 //@ func validateArrayAndVectorDimensions$1
@@ -369,6 +461,92 @@ package dsl
 //@   ensures always_descends: called("dsl.(VisitorWithContext[Node]).VisitChildren")
 //@   ensures stream_outside_protocol_is_an_error: typeof(node) == *Stream && typeof(context) != *ProtocolDefinition ==> len(errorSink.Errors) == old(len(errorSink.Errors)) + 1
 //@   ensures stream_in_protocol_is_accepted: typeof(node) == *Stream && typeof(context) == *ProtocolDefinition ==> len(errorSink.Errors) == old(len(errorSink.Errors))
+// "directly": the item type of a vector, array, map or stream and the cases of a union hang below a *TypeCase; whatever
+// is below one is no longer the step's own type, so it must not be visited with the protocol as its context.
+//@   ensures nested_types_lose_the_protocol_context: typeof(node) == *TypeCase ==> typeof(lastArg("dsl.(VisitorWithContext[Node]).VisitChildren", 2)) != *ProtocolDefinition
+//@ observe-args dsl.(VisitorWithContext[Node]).VisitChildren
+
+// Unions (docs: "adding or removing types of a union" is a change that is reported, with a warning): two unions with a
+// different number of cases are never "unchanged". Matching is positional unless typesReordered is set.
+//@ func detectUnionChanges
+//@   property C06
+//@   requires newType != nil && oldType != nil
+//@   invariant 1: len(newMatches) == len(newType.Cases) && len(oldMatches) == len(oldType.Cases)
+//@   invariant 1: !typesReordered ==> (forall k in 0..len(newMatches) :: newMatches[k] ==> k < len(oldMatches)) && (forall k in 0..len(oldMatches) :: oldMatches[k] ==> k < len(newMatches))
+//@   invariant 2: len(newMatches) == len(newType.Cases) && len(oldMatches) == len(oldType.Cases)
+//@   invariant 2: !typesReordered ==> (forall k in 0..len(newMatches) :: newMatches[k] ==> k < len(oldMatches)) && (forall k in 0..len(oldMatches) :: oldMatches[k] ==> k < len(newMatches))
+//@   invariant 3: allMatch ==> (forall k in 0..rangeindex+1 :: newMatches[k])
+//@   invariant 4: allMatch ==> (forall k in 0..len(newMatches) :: newMatches[k]) && (forall k in 0..rangeindex+1 :: oldMatches[k])
+//@   ensures a_different_number_of_cases_is_a_change: lastResult("dsl.(*TypeCases).IsUnion") && len(oldType.Cases) != len(newType.Cases) ==> result != nil
+
+// Collections (docs/cpp/evolution.md: "changing a scalar type to a vector or array" is incompatible; the binary format
+// gives a fixed-length vector and a fixed array no length prefix, so a changed length or shape is a different layout).
+// Nothing changed is reported as no change; a change of the element type is carried inside the wrapper change.
+//@ spec func vecLen(t *GeneralizedType) *uint64 = t.Dimensionality.(*Vector).Length
+//@ func detectStreamChanges
+//@   property C06
+//@   requires newType != nil && oldType != nil
+//@   ensures non_stream_to_stream_is_incompatible: typeof(oldType.Dimensionality) != *Stream ==> typeof(result) == *TypeChangeIncompatible
+//@   ensures element_change_is_carried: typeof(oldType.Dimensionality) == *Stream && innerChange != nil ==> typeof(result) == *TypeChangeStreamTypeChanged && result.(*TypeChangeStreamTypeChanged).InnerChange == innerChange
+//@   ensures unchanged_is_no_change: typeof(oldType.Dimensionality) == *Stream && innerChange == nil ==> result == nil
+//@ func detectVectorChanges
+//@   property C06
+//@   requires newType != nil && oldType != nil && typeof(newType.Dimensionality) == *Vector && newType.Dimensionality.(*Vector) != nil
+//@   requires typeof(oldType.Dimensionality) == *Vector ==> oldType.Dimensionality.(*Vector) != nil
+//@   ensures non_vector_to_vector_is_incompatible: typeof(oldType.Dimensionality) != *Vector ==> typeof(result) == *TypeChangeIncompatible
+//@   ensures fixed_versus_variable_is_incompatible: typeof(oldType.Dimensionality) == *Vector && (vecLen(oldType) == nil) != (vecLen(newType) == nil) ==> typeof(result) == *TypeChangeIncompatible
+//@   ensures changed_length_is_incompatible: typeof(oldType.Dimensionality) == *Vector && vecLen(oldType) != nil && vecLen(newType) != nil && *vecLen(oldType) != *vecLen(newType) ==> typeof(result) == *TypeChangeIncompatible
+//@   ensures same_shape_carries_element_change: typeof(oldType.Dimensionality) == *Vector && ((vecLen(oldType) == nil && vecLen(newType) == nil) || (vecLen(oldType) != nil && vecLen(newType) != nil && *vecLen(oldType) == *vecLen(newType))) ==> (innerChange == nil ==> result == nil) && (innerChange != nil ==> typeof(result) == *TypeChangeVectorTypeChanged && result.(*TypeChangeVectorTypeChanged).InnerChange == innerChange)
+//@ spec func arrDims(t *GeneralizedType) *ArrayDimensions = t.Dimensionality.(*Array).Dimensions
+//@ spec func sameDim(a *ArrayDimension, b *ArrayDimension) bool = (a.Length == nil) == (b.Length == nil) && (a.Length != nil ==> *a.Length == *b.Length)
+//@ func detectArrayChanges
+//@   property C06
+//@   requires newType != nil && oldType != nil && typeof(newType.Dimensionality) == *Array && newType.Dimensionality.(*Array) != nil
+//@   requires typeof(oldType.Dimensionality) == *Array ==> oldType.Dimensionality.(*Array) != nil
+//@   invariant 0: forall k in 0..rangeindex+1 :: sameDim((*arrDims(newType))[k], (*arrDims(oldType))[k])
+//@   ensures non_array_to_array_is_incompatible: typeof(oldType.Dimensionality) != *Array ==> typeof(result) == *TypeChangeIncompatible
+//@   ensures dimensions_added_or_removed_is_incompatible: typeof(oldType.Dimensionality) == *Array && (arrDims(oldType) == nil) != (arrDims(newType) == nil) ==> typeof(result) == *TypeChangeIncompatible
+//@   ensures changed_rank_is_incompatible: typeof(oldType.Dimensionality) == *Array && arrDims(oldType) != nil && arrDims(newType) != nil && len(*arrDims(oldType)) != len(*arrDims(newType)) ==> typeof(result) == *TypeChangeIncompatible
+//@   ensures changed_extent_is_incompatible: typeof(oldType.Dimensionality) == *Array && arrDims(oldType) != nil && arrDims(newType) != nil && len(*arrDims(oldType)) == len(*arrDims(newType)) && (exists k in 0..len(*arrDims(newType)) :: !sameDim((*arrDims(newType))[k], (*arrDims(oldType))[k])) ==> typeof(result) == *TypeChangeIncompatible
+//@   ensures changed_element_is_incompatible: innerChange != nil ==> typeof(result) == *TypeChangeIncompatible
+//@   ensures unchanged_is_no_change: typeof(oldType.Dimensionality) == *Array && innerChange == nil && ((arrDims(oldType) == nil && arrDims(newType) == nil) || (arrDims(oldType) != nil && arrDims(newType) != nil && len(*arrDims(oldType)) == len(*arrDims(newType)) && (forall k in 0..len(*arrDims(newType)) :: sameDim((*arrDims(newType))[k], (*arrDims(oldType))[k])))) ==> result == nil
+//@ func detectMapChanges
+//@   property C06
+//@   requires newType != nil && oldType != nil && typeof(newType.Dimensionality) == *Map && newType.Dimensionality.(*Map) != nil
+//@   requires typeof(oldType.Dimensionality) == *Map ==> oldType.Dimensionality.(*Map) != nil
+//@   ensures non_map_to_map_is_incompatible: typeof(oldType.Dimensionality) != *Map ==> typeof(result) == *TypeChangeIncompatible
+//@   ensures changed_key_or_value_is_incompatible: typeof(oldType.Dimensionality) == *Map && (lastResult(compareTypes) != nil || innerChange != nil) ==> typeof(result) == *TypeChangeIncompatible
+//@   ensures unchanged_is_no_change: typeof(oldType.Dimensionality) == *Map && lastResult(compareTypes) == nil && innerChange == nil ==> result == nil
+//@ func detectOptionalChanges
+//@   property C06
+//@   requires newType != nil && oldType != nil
+//@   ensures optional_element_change_is_carried: lastResult("dsl.(*TypeCases).IsOptional") && called(compareTypes) ==> (lastResult(compareTypes) == nil ==> result == nil) && (lastResult(compareTypes) != nil ==> typeof(result) == *TypeChangeOptionalTypeChanged && result.(*TypeChangeOptionalTypeChanged).InnerChange == lastResult(compareTypes))
+
+// Type references: an unknown name, a reference to a protocol and a wrong number of type arguments are errors of
+// resolveType; both passes that resolve references report its error at the reference and descend into type arguments.
+//@ func resolveType
+//@   property C09
+//@   requires simpleType != nil
+//@   ensures unknown_name_is_an_error: lastResult(resolveTypeByName).r1 != nil ==> result != nil
+//@   ensures wrong_generic_arity_is_an_error: lastResult(resolveTypeByName).r1 == nil && oldheap(len(lastResult(resolveTypeByName).r0.GetDefinitionMeta().TypeParameters) != len(simpleType.TypeArguments)) ==> result != nil
+//@ func resolveTypes$1
+//@   property C09
+//@   requires errorSink != nil
+//@   ensures always_descends: called("dsl.(VisitorWithContext[*visitorContext]).VisitChildren")
+//@   ensures every_reference_is_resolved: typeof(node) == *SimpleType ==> called(resolveType)
+//@   ensures unresolved_reference_is_an_error: typeof(node) == *SimpleType && errSeen(resolveType) ==> called("validation.(*ErrorSink).Add")
+//@ func convertGenericReferences$1
+//@   property C09
+//@   requires errorSink != nil
+//@   ensures always_descends: called("dsl.(VisitorWithContext[visitorContext]).VisitChildren")
+//@   ensures every_reference_is_resolved: typeof(node) == *SimpleType ==> called(resolveType)
+//@   ensures unresolved_reference_is_an_error: typeof(node) == *SimpleType && errSeen(resolveType) ==> called("validation.(*ErrorSink).Add")
+
+// Union rules apply to every union of the model, also to one written as a generic type argument
+// (`Foo<[int, int]>`, `!generic {name: Foo, args: [[int, int]]}`): the pass descends below every node.
+//@ func validateUnionCases$1
+//@   property C09
+//@   ensures always_descends: called("dsl.(VisitorWithContext[bool]).VisitChildren")
 
 // Name rules: every definition other than the one being named is descended into.
 //@ func validateTypeDefinitionNames$1
@@ -376,10 +554,23 @@ package dsl
 //@   ensures non_definitions_descend: !(typeof(node) == TypeDefinition) ==> called("dsl.(Visitor).VisitChildren")
 //@ func validateRecordFieldNames$1
 //@   property C09
+//@   requires errorSink != nil
 //@   ensures non_records_descend: typeof(node) != *RecordDefinition ==> called("dsl.(Visitor).VisitChildren")
+// every field and computed field: a badly-cased name is an error; a name already used on the record is an error;
+// names accumulate over fields and computed fields (so a computed field cannot repeat a field either)
+//@   invariant 0: forall k in 0..rangeindex+1 :: (record.Fields[k].Name in fields)
+//@   iteration 0: badly_cased_field_is_an_error: !lastResult("regexp.(*Regexp).MatchString") ==> len(errorSink.Errors) > old(len(errorSink.Errors))
+//@   iteration 0: repeated_field_name_is_an_error: old(field.Name in fields) ==> len(errorSink.Errors) > old(len(errorSink.Errors))
+//@   invariant 1: (forall k in 0..len(record.Fields) :: (record.Fields[k].Name in fields)) && (forall k in 0..rangeindex+1 :: (record.ComputedFields[k].Name in fields))
+//@   iteration 1: badly_cased_computed_field_is_an_error: !lastResult("regexp.(*Regexp).MatchString") ==> len(errorSink.Errors) > old(len(errorSink.Errors))
+//@   iteration 1: repeated_computed_field_name_is_an_error: old(field.Name in fields) ==> len(errorSink.Errors) > old(len(errorSink.Errors))
 //@ func validateProtocolSequenceNames$1
 //@   property C09
+//@   requires errorSink != nil
 //@   ensures non_protocols_descend: typeof(node) != *ProtocolDefinition ==> called("dsl.(Visitor).VisitChildren")
+//@   invariant 0: forall k in 0..rangeindex+1 :: (protocol.Sequence[k].Name in steps)
+//@   iteration 0: badly_cased_step_is_an_error: !lastResult("regexp.(*Regexp).MatchString") ==> len(errorSink.Errors) > old(len(errorSink.Errors))
+//@   iteration 0: repeated_step_name_is_an_error: old(step.Name in steps) ==> len(errorSink.Errors) > old(len(errorSink.Errors))
 //@ func validateEnums$1
 //@   property C09
 //@   ensures non_enums_descend: typeof(node) != *EnumDefinition ==> called("dsl.(Visitor).VisitChildren")
